@@ -13,7 +13,7 @@ from symex import SymEx, show, strip
 
 
 def sk(t):
-    return re.sub(r'#\d+\.\d+', '', show(t))
+    return re.sub(r'#(?:i\d+:)?\d+\.\d+', '', show(t))
 
 
 def check_split_combine(facts, rep):
@@ -173,7 +173,7 @@ def check_index_maps(facts, rep):
     S = 'yui_matrix::sparse::sp_mat::SpMat::<R>::'
 
     def dk(t):
-        return re.sub(r'\^_ref__', '^', re.sub(r'#\d+\.\d+', '', show(t, -1000))).replace('&', '').replace('*', '')
+        return re.sub(r'\^_ref__', '^', re.sub(r'#(?:i\d+:)?\d+\.\d+', '', show(t, -1000))).replace('&', '').replace('*', '')
 
     def rets(name):
         b = facts.bodies.get(S + name)
@@ -347,7 +347,7 @@ def check_extend_cols(facts, rep):
     rep.saw(b)
 
     def dk(t):
-        return re.sub(r'&mut _\d+', 'IT', re.sub(r'#\d+\.\d+', '', show(t, -1000))).replace('&', '').replace('*', '')
+        return re.sub(r'&mut _\d+', 'IT', re.sub(r'#(?:i\d+:)?\d+\.\d+', '', show(t, -1000))).replace('&', '').replace('*', '')
     n = 0
     probs = []
     for p in SymEx(b, havoc_loops=True, max_paths=5000).run():
